@@ -335,6 +335,8 @@ func commaLed(p *parser, t *token, left *token) *token {
 }
 
 func getType(p *parser) *token {
+	p.enter()
+	defer p.leave()
 	t := p.Token
 	p.Next()
 	switch t.Symbol {
